@@ -38,6 +38,7 @@ import (
 	"os/exec"
 	"path/filepath"
 	"reflect"
+	"runtime"
 	"runtime/debug"
 	"sort"
 	"strings"
@@ -2676,6 +2677,52 @@ func (x *frameC05) fragMessage(addr string) {
 	x.appRead(addr, make([]byte, rng.pick(1, 16, 700, 1499)))
 }
 
+// flood: first datagrams of new conversations from many more addresses than the accept backlog
+// holds, while nobody accepts.  What the listener keeps per refused peer is nothing: sessions,
+// goroutines and established-connection count grow by at most the backlog.
+func (x *frameC05) flood() {
+	n := 3 * acceptBacklog
+	if vThorough() {
+		n = 12 * acceptBacklog
+	}
+	x.lis.sessionLock.RLock()
+	s0 := len(x.lis.sessions)
+	x.lis.sessionLock.RUnlock()
+	g0, e0 := runtime.NumGoroutine(), DefaultSnmp.Copy().CurrEstab
+	for i := 0; i < n; i++ {
+		data := x.rng.bytes(1 + x.rng.intn(20))
+		seg := frameSegBytes(uint32(x.rng.u64()), IKCP_CMD_PUSH, 0, 32, 0, 0, 0, uint32(len(data)), data)
+		dg := x.frame(seg) // fed directly: feed() would accept and close the new session at once
+		if pn := frameSafe(func() { x.lis.packetInput(dg, frameAddr(fmt.Sprintf("flood%d", i))) }); pn != "" {
+			x.res.violate("session-input-panic:"+x.path, "listener receive path panicked on the first datagram of a new peer: "+pn, map[string]any{"datagram": hx(dg)})
+			return
+		}
+	}
+	time.Sleep(20 * time.Millisecond)
+	x.lis.sessionLock.RLock()
+	s1 := len(x.lis.sessions)
+	x.lis.sessionLock.RUnlock()
+	g1, e1 := runtime.NumGoroutine(), DefaultSnmp.Copy().CurrEstab
+	x.res.Monitors["listener-flood-bounded"]++
+	x.res.Dist["c05-flood-new-peers"] += n
+	x.res.Dist["c05-flood-sessions-created"] += s1 - s0
+	x.res.Dist["c05-flood-goroutine-growth"] += g1 - g0
+	x.res.Dist["c05-flood-backlog-after"] += len(x.lis.chAccepts)
+	if s1-s0 > acceptBacklog || g1-g0 > acceptBacklog+8 || int64(e1)-int64(e0) > acceptBacklog {
+		x.res.violate("listener-flood-unbounded", fmt.Sprintf("%d first datagrams of new peers with nobody accepting (backlog %d): the session table grew by %d, goroutines by %d, CurrEstab by %d (cipher %s, FEC %d/%d)",
+			n, acceptBacklog, s1-s0, g1-g0, int64(e1)-int64(e0), x.ciph.name, x.cfg.D, x.cfg.P), map[string]any{"peers": n})
+	}
+	for { // the backlog is accepted and closed again
+		select {
+		case s := <-x.lis.chAccepts:
+			s.Close()
+			continue
+		default:
+		}
+		break
+	}
+}
+
 func frameRunC05(cfg frameCfg) *frameResult {
 	res := &frameResult{Cfg: cfg, Dist: map[string]int{}, Monitors: map[string]int{}}
 	rng := newRng(cfg.Seed)
@@ -2795,6 +2842,9 @@ func frameRunC05(cfg frameCfg) *frameResult {
 		if rng.chance(20) { // the application reads now and then: both a full and a draining receive queue occur
 			x.appRead(addr, rbuf[:rng.pick(1, 16, 700, 1499, 1500, 1501, 2048, 2048, 2048)])
 		}
+	}
+	if cfg.C05 == 3 {
+		x.flood()
 	}
 	x.pump()
 	res.Datagrams = x.feeds
